@@ -74,7 +74,7 @@ def finish(pid, tier, seed, cfg, kf, outs, units_by_id, wall):
         d['n'] += 1
         d['covered'] = d['covered'] or bool(ob.get('covered'))
         d['refuted'] = d['refuted'] or ob['verdict'] == 'refuted'
-        if ob['verdict'] not in ('undecided', 'not-applicable'):
+        if ob['verdict'] not in ('undecided', 'not-applicable', 'carved-out'):
             d['undecided_all'] = False
     for (u, c), d in per_case.items():
         if c == '*':
@@ -85,7 +85,7 @@ def finish(pid, tier, seed, cfg, kf, outs, units_by_id, wall):
         elif not d['covered'] and not d['undecided_all'] and c != 'no_python_exception':
             checker_errors.append(f'vacuous contract: case {c!r} of {u} is not reachable under its precondition')
 
-    real_obs = [ob for ob in obligations if not ob.get('is_canary') and ob['verdict'] != 'not-applicable']
+    real_obs = [ob for ob in obligations if not ob.get('is_canary') and ob['verdict'] not in ('not-applicable', 'carved-out')]
     n_ob = len(real_obs)
     n_proved = sum(1 for ob in real_obs if ob['verdict'] == 'proved')
     undecided = [ob for ob in real_obs if ob['verdict'] == 'undecided']
